@@ -135,3 +135,76 @@ pub proof fn lemma_values_grow(old: &Context, new: &Context)
     assert forall|q: ExprRef| #[trigger] new.has(q) && !old.has(q) implies new.node_ok(q) by {}
     lemma_grow_wf(old, new);
 }
+
+// ---------------------------------------------------------------- C12 as theorems over the (verified) contract of add_expr
+/// what `add_expr(value)` guarantees (the text of its `ensures` in contracts/context.spec, with old/final made explicit)
+pub open spec fn add_expr_post(c0: &Context, c1: &Context, r: ExprRef, value: Expr) -> bool {
+    &&& built(c0, c1, r, value, c0.node_ty(value), c0.node_den(value))
+    &&& c0.is_node(value) ==> c0.has(r) && c0.nodes()[r] == value
+}
+
+/// canonical: building the same node again — after any number of other insertions — returns the same reference
+pub proof fn theorem_same_node_same_ref(c0: &Context, c1: &Context, c2: &Context, c3: &Context, v: Expr, r1: ExprRef, r2: ExprRef)
+    requires add_expr_post(c0, c1, r1, v), c2.extends(c1), c2.wf(), add_expr_post(c2, c3, r2, v),
+    ensures r1 == r2,
+{
+    assert(c1.has(r1));
+    assert(c2.has(r1) && c2.nodes()[r1] == v);
+    assert(c2.is_node(v));
+    assert(c2.ref_of(c2.nodes()[r1]) == r1);
+    assert(c2.ref_of(c2.nodes()[r2]) == r2);
+}
+
+/// canonical: structurally different nodes get different references
+pub proof fn theorem_different_node_different_ref(c0: &Context, c1: &Context, c2: &Context, c3: &Context, v1: Expr, v2: Expr, r1: ExprRef, r2: ExprRef)
+    requires add_expr_post(c0, c1, r1, v1), c2.extends(c1), add_expr_post(c2, c3, r2, v2), v1 != v2,
+    ensures r1 != r2,
+{
+    assert(c1.has(r1));
+    assert(c2.has(r1) && c2.nodes()[r1] == v1);
+    assert(c3.has(r1) && c3.nodes()[r1] == v1);
+}
+
+/// stable: `extends` composes, so a reference keeps its node, type and denotation (and true/false stay the same two references)
+/// across any sequence of builder calls (every builder ensures `final(self).extends(old(self))`)
+pub proof fn theorem_extends_transitive(c0: &Context, c1: &Context, c2: &Context)
+    requires c1.extends(c0), c2.extends(c1),
+    ensures c2.extends(c0),
+{
+    assert forall|r: ExprRef| #[trigger] c0.has(r) implies c2.has(r) && c2.nodes()[r] == c0.nodes()[r]
+        && c2.den(r) == c0.den(r) && c2.ty(r) == c0.ty(r) by { assert(c1.has(r)); }
+    assert forall|l: BVLitValue| #[trigger] c0.lit_interned(l) implies c2.lit_interned(l) && c2.lit_v(l) == c0.lit_v(l) by { assert(c1.lit_interned(l)); }
+}
+
+/// what `bv_lit(value)` guarantees about the node it returns (the node-related part of its `ensures`), for a value (w, v)
+pub open spec fn bv_lit_post(c0: &Context, c1: &Context, r: ExprRef, w: int, v: int) -> bool {
+    &&& c1.extends(c0) && c1.wf() && c1.has(r)
+    &&& c1.nodes()[r] is BVLiteral
+    &&& c1.nodes()[r]->BVLiteral_0.0.width == w
+    &&& c1.lit_v(c1.nodes()[r]->BVLiteral_0) == v
+}
+
+/// canonical literals: the same (width, value) — however it was computed — is the same reference
+pub proof fn theorem_same_literal_same_ref(c0: &Context, c1: &Context, c2: &Context, c3: &Context, w: int, v: int, r1: ExprRef, r2: ExprRef)
+    requires bv_lit_post(c0, c1, r1, w, v), c2.extends(c1), c2.wf(), bv_lit_post(c2, c3, r2, w, v),
+    ensures r1 == r2,
+{
+    theorem_extends_transitive(c1, c2, c3);
+    assert(c1.has(r1));
+    assert(c2.has(r1));
+    assert(c3.has(r1) && c3.nodes()[r1] == c1.nodes()[r1]);
+    let l1 = c3.nodes()[r1]->BVLiteral_0;
+    let l2 = c3.nodes()[r2]->BVLiteral_0;
+    lemma_wf_basics(c1);
+    lemma_wf_basics(c3);
+    assert(c1.lit_interned(l1));
+    assert(c2.lit_interned(l1));
+    assert(c3.lit_interned(l1) && c3.lit_v(l1) == v);
+    assert(c3.lit_interned(l2));
+    assert(c3.lit_of(l1.0.width, c3.lit_v(l1)) == l1);
+    assert(c3.lit_of(l2.0.width, c3.lit_v(l2)) == l2);
+    assert(l1 == l2);
+    assert(c3.nodes()[r1] == c3.nodes()[r2]);
+    assert(c3.ref_of(c3.nodes()[r1]) == r1);
+    assert(c3.ref_of(c3.nodes()[r2]) == r2);
+}
